@@ -524,7 +524,9 @@ def reaching_defs(fn_node, use_node):
             continue
         if any(cfg.path(s, use_nodes, avoid=av) is not None for s in starts):
             out.append(d)
-    allnodes = [n for d in defs for n in dnodes[id(d)] if all(n is not u for u in use_nodes)]
+    # a binding statement that may raise binds only when it completes (its `ok` node): the exception edge that leaves it
+    # before that carries the old (possibly unbound) value
+    allnodes = [n for d in defs for n in (cfg.nodes_of(d, ('ok',)) or dnodes[id(d)]) if all(n is not u for u in use_nodes)]
     if cfg.path(cfg.entry, use_nodes, avoid=allnodes) is not None:
         out.append('entry')
     return out
